@@ -186,7 +186,9 @@ static void *l_thread(void *arg)
 		usim_set_op("%d.%d %s", me, i, opname[op->kind]);
 		if (F->is_qsbr)
 			F->thread_online();
+		op_stall_begin(op);
 		do_op(me, op);
+		op_stall_end();
 		if (F->is_qsbr)
 			F->thread_offline();
 	}
@@ -232,6 +234,7 @@ void scen_rculist(void)
 			uint32_t r = rnd(100);
 			op->a = rnd(16);
 			op->b = rnd(6);
+			op_stall_gen(op, 4, 10);
 			if (!updater || r < 25) op->kind = OP_TRAVERSE;
 			else if (r < 45) op->kind = OP_ADD;
 			else if (r < 60) op->kind = OP_ADD_TAIL;
